@@ -15,7 +15,9 @@ THEOREMS = ["Gozod.C03." + t for t in [
     "c03_witness_default_checked", "c03_witness_refine_on_nil", "c03_witness_refine_on_nil_int",
     "internals_wrapFrom", "internals_wrap", "parse_wrapFrom_plain", "parse_wrapFrom_default",
     "c03_wrapped_plain", "c03_wrapped_default", "c03_default_skips_all_transforms", "pipeCalls_noPipe", "pipeCalls_only_pipes",
-    "hasDefault_applyAll", "pipeCalls_eq_spec", "c03_wrapped_partial", "c03_wrapped_witness_default_checked", "c03_wrapped_nonnil"]]
+    "hasDefault_applyAll", "pipeCalls_eq_spec", "c03_wrapped_partial", "c03_wrapped_witness_default_checked", "c03_wrapped_nonnil",
+    "step_ctx", "step_eq_parseBase", "runSeq_ctx", "runSeq_results", "c03_ctx_history", "c03_ctx_history_discriminates",
+    "specStep_parseBase", "c03_ctx_seq_partial", "c03_ctx_seq_witness"]]
 
 def cls(s):
     s = s.strip()
@@ -33,8 +35,45 @@ def base_of(obs):
             r = r[r.index("(") + 1:-1]
     return r
 
+def seq_key(op, impl, M, S):
+    """cseq / csib: the class of the first deviating step. A step whose outcome through the shared context differs from
+    the same parse through a fresh context is a context-history dependence; otherwise the deviation is the bare
+    schema's own and keeps the bare line's class name."""
+    body = C.op_body(op)
+    kind = body.split(" ")[1]
+    segs = body.split(" / ")[1:]
+    tys = C.op_comment(op).split(" ")[0].split(",")
+    if " ctx=" not in impl: return "ctx:%s-unreadable-observation" % kind
+    isteps, ictx = impl.rsplit(" ctx=", 1)
+    if "!fresh" in isteps: return "ctx:outcome-depends-on-context-history"
+    if ictx != "same": return "ctx:context-left-changed"
+    a = isteps.split(" / ")
+    s = (S or M).rsplit(" ctx=", 1)[0].split(" / ")
+    m = M.rsplit(" ctx=", 1)[0].split(" / ")
+    j = next((x for x in range(len(a)) if x >= len(s) or a[x] != s[x]), None)
+    if j is None:
+        j = next((x for x in range(len(a)) if x >= len(m) or a[x] != m[x]), None)
+        if j is None: return "ctx:%s-context-state" % kind
+        return "%s:%s-model-differs" % (tys[j] if j < len(tys) else "?", kind)
+    ty = tys[j] if j < len(tys) else "?"
+    toks = segs[j].split(" ") if j < len(segs) else []
+    ops, inp = toks[5:], (toks[1] if len(toks) > 1 else "?")
+    ij, sj, mj = a[j], (s[j] if j < len(s) else "?"), (m[j] if j < len(m) else "?")
+    if ij.startswith("panic"): return "%s:panic" % ty
+    if ty == "record" and any(o in ("Optional", "Nilable", "Nullish") for o in ops):
+        return "record:pointer-variant-conversion"
+    if inp in ("ok", "bad"): return "%s:nonnil-input-diff-verdict" % ty
+    exp = sj[len("spec-rejects:expected "):] if sj.startswith("spec-rejects:expected ") else sj
+    if ij == mj and ij in ("err:checks", "err") and "Overwrite" in ops and exp.startswith("default"):
+        return "%s:default-checked-when-overwrite-attached" % ty
+    if ij == mj and ij in ("err:custom", "err") and "Refine" in ops:
+        return "%s:refinement-runs-on-nil" % ty
+    got = "success" if ij == "ok" else cls(ij)
+    return "%s:%s-instead-of-%s" % (ty, got, cls(exp.split("|")[0]))
+
 def key(op, impl, M, S):
     body = C.op_body(op).split(" ")
+    if body[1] in ("cseq", "csib"): return seq_key(op, impl, M, S)
     ty = C.op_comment(op).split(" ")[0]
     ops = {"nil": body[5:], "val": body[2:], "wnil": body[6:], "wval": body[4:]}.get(body[1], body[2:])
     if impl.startswith("panic"): return "%s:panic" % ty
